@@ -457,6 +457,12 @@ fn gen_from(prop: &str, posfile: &Path, out: &Path, cap: usize) {
         }
         let v: Value = serde_json::from_str(line).unwrap();
         let raw = proj::raw_from_json(&v["pos"]);
+        if prop == "C11" {
+            // raw boards, valid or not: the verdict of validation is the observation
+            sink.begin(&json!({"prop": prop, "rawfen": raw.as_fen(), "fam": v["fam"]}));
+            sink.emit(&misc::rawval_event(&raw));
+            continue;
+        }
         let b = match owlchess::Board::try_from(raw) {
             Ok(b) if *b.raw() == raw => b,
             _ => {
@@ -477,6 +483,23 @@ fn gen_from(prop: &str, posfile: &Path, out: &Path, cap: usize) {
                 for e in evs {
                     sink.emit(&e);
                 }
+            }
+            "C08" => {
+                sink.emit(&notation::fen_board_event(&b));
+            }
+            "C09" => {
+                sink.emit(&notation::san_event(&mut rng, &b));
+            }
+            "C10" => {
+                sink.emit(&notation::uci_event(&b));
+            }
+            "C18" => {
+                for ev in misc::sym_events(&b) {
+                    sink.emit(&ev);
+                }
+            }
+            "C19" => {
+                sink.emit(&misc::cap_event(&b));
             }
             _ => {
                 let mut ev = query_one(&ctx, &b, prop);
